@@ -274,7 +274,7 @@ def subst(t, old, new):
     return normalize(rewrite_term(t, old, new))
 
 
-@rule("R16.1", props=["C16", "C07", "C12"], floor=4, title="edge(sig) == local_edge(local_sig(sig)) shifted by shard(sig) * num_vertices(); vertices distinct and below num_vertices (segment domain)", configs=("default", "mwhc"))
+@rule("R16.1", props=["C16", "C07", "C12", "C08"], floor=4, title="edge(sig) == local_edge(local_sig(sig)) shifted by shard(sig) * num_vertices(); vertices distinct and below num_vertices (segment domain)", configs=("default", "mwhc"))
 def r16_1(ctx, rr):
     for cfg in sorted(ctx.facts.keys()):
         F = ctx.F(cfg)
